@@ -222,6 +222,8 @@ func (bp *boundsProver) staticLB(v ssa.Value) int64 {
 		}
 	case *ssa.Parameter:
 		lb = bp.paramLowerBound(x)
+	case *ssa.Extract:
+		lb = bp.resultLowerBound(x)
 	case *ssa.MakeSlice:
 		if k, ok := constInt(x.Len); ok {
 			lb = k
@@ -314,6 +316,67 @@ func (bp *boundsProver) paramLowerBound(p *ssa.Parameter) int64 {
 		}
 	}
 	bp.paramLB[p] = lb
+	return lb
+}
+
+// resultLowerBound: v is a slice result of a call of a function of the package that also
+// returns an error, and v is only used where that error was found nil: the smallest length the
+// function returns together with a nil error (its parameters bounded by what its call sites prove).
+func (bp *boundsProver) resultLowerBound(v *ssa.Extract) int64 {
+	cl, ok := v.Tuple.(*ssa.Call)
+	if !ok {
+		return 0
+	}
+	h := cl.Call.StaticCallee()
+	if h == nil || len(h.Blocks) == 0 {
+		return 0
+	}
+	inPkg := false
+	for _, g := range bp.pkgFns {
+		if g == h {
+			inPkg = true
+		}
+	}
+	res := h.Signature.Results()
+	if !inPkg || res.Len() < 2 || !isErrorType(res.At(res.Len()-1).Type()) {
+		return 0
+	}
+	// every use of v sits behind the nil test of the call's error
+	if refs := v.Referrers(); refs != nil {
+		for _, r := range *refs {
+			if _, isDbg := r.(*ssa.DebugRef); isDbg {
+				continue
+			}
+			if !dominatedByErrNil(r.Block(), cl) {
+				return 0
+			}
+		}
+	}
+	lb := int64(1 << 30)
+	for _, r := range returnsOf(h) {
+		if len(r.Results) != res.Len() {
+			return 0
+		}
+		if e := returnedValue(r, res.Len()-1); !isNilConst(e) {
+			if _, isCall := e.(*ssa.Call); isCall {
+				continue // an error is being constructed: not a success return
+			}
+			return 0
+		}
+		l := bp.staticLB(returnedValue(r, v.Index))
+		// facts on the way to the return
+		for _, cs := range bp.factsAt(r.Block()) {
+			if cs.x.zero && cs.y.lenOf == canonSlice(returnedValue(r, v.Index)) && -cs.k > l {
+				l = -cs.k
+			}
+		}
+		if l < lb {
+			lb = l
+		}
+	}
+	if lb == 1<<30 {
+		return 0
+	}
 	return lb
 }
 
